@@ -251,8 +251,159 @@ def r04_5(chk):
     chk.ok("R04.5", key(OLD, "Sequence", "constructor calls scanned"), f"src/cogent3/{OLD}:1", "no derived sequence built from a string with a relative annotation_offset", nontrivial=False)
 
 
+class _Unhandled(Exception):
+    pass
+
+
+def _clip_semantics(loop, var):
+    """evaluate the body of `for <var> in <spans>` of make_feature on every weak ordering of
+    a = span start, b = span end, Z = 0, L = len(self)  (a <= b, Z < L).  All values the body can
+    produce are among these four symbols, so a value is represented by its rank.  Returns a list of
+    (ordering text, outcome, expected) for the orderings where they differ."""
+    from ..tables import weak_orderings
+
+    def term(e, env, ranks):
+        t = norm(e)
+        if t in (f"{var}.min()", f"{var}[0]", f"min({var})"):
+            return env[var][0] if t.endswith("[0]") else min(env[var])
+        if t in (f"{var}.max()", f"{var}[1]", f"max({var})"):
+            return env[var][1] if t.endswith("[1]") else max(env[var])
+        if t == "0":
+            return ranks["Z"]
+        if t in ("len(self)", "self.__len__()", "length", "seq_len"):
+            return ranks["L"]
+        for nm, val in env.items():
+            if nm != var and t in (f"{nm}.min()", f"min({nm})"):
+                return min(val)
+            if nm != var and t in (f"{nm}.max()", f"max({nm})"):
+                return max(val)
+            if t == f"{nm}[0]":
+                return val[0]
+            if t == f"{nm}[1]":
+                return val[1]
+        raise _Unhandled(f"term {t}")
+
+    def test(e, env, ranks):
+        if isinstance(e, ast.BoolOp):
+            vals = [test(v, env, ranks) for v in e.values]
+            return all(vals) if isinstance(e.op, ast.And) else any(vals)
+        if isinstance(e, ast.UnaryOp) and isinstance(e.op, ast.Not):
+            return not test(e.operand, env, ranks)
+        if isinstance(e, ast.Compare):
+            left = term(e.left, env, ranks)
+            for op, right in zip(e.ops, e.comparators):
+                r = term(right, env, ranks)
+                okc = {ast.Lt: left < r, ast.LtE: left <= r, ast.Gt: left > r, ast.GtE: left >= r, ast.Eq: left == r, ast.NotEq: left != r}.get(type(op))
+                if okc is None:
+                    raise _Unhandled(f"operator in {norm(e)}")
+                if not okc:
+                    return False
+                left = r
+            return True
+        raise _Unhandled(f"test {norm(e)}")
+
+    def value(e, env, ranks):
+        """a pair-valued expression"""
+        if isinstance(e, ast.Call) and isinstance(e.func, ast.Attribute) and e.func.attr in ("tolist", "copy") and not e.args:
+            return value(e.func.value, env, ranks)
+        if isinstance(e, ast.Call) and call_name(e) in ("list", "tuple") and len(e.args) == 1:
+            return value(e.args[0], env, ranks)
+        if isinstance(e, ast.Subscript) and isinstance(e.slice, ast.Slice) and e.slice.lower is None and e.slice.upper is None:
+            return value(e.value, env, ranks)
+        if isinstance(e, ast.Name) and e.id in env:
+            return list(env[e.id])
+        if isinstance(e, ast.Call) and isinstance(e.func, ast.Attribute) and e.func.attr == "clip" and len(e.args) == 2 and not e.keywords:
+            base = value(e.func.value, env, ranks)
+            lo, hi = term(e.args[0], env, ranks), term(e.args[1], env, ranks)
+            return [max(lo, min(x, hi)) for x in base]
+        raise _Unhandled(f"value {norm(e)}")
+
+    def run_block(stmts, env, ranks, out):
+        """returns 'continue' when the iteration ends early"""
+        for st in stmts:
+            if isinstance(st, ast.Continue):
+                return "continue"
+            if isinstance(st, ast.If):
+                blk = st.body if test(st.test, env, ranks) else st.orelse
+                if run_block(blk, env, ranks, out) == "continue":
+                    return "continue"
+                continue
+            if isinstance(st, ast.Assign) and len(st.targets) == 1:
+                t = st.targets[0]
+                if isinstance(t, ast.Name):
+                    env[t.id] = value(st.value, env, ranks)
+                    continue
+                # masked store  new[new < 0] = 0
+                if isinstance(t, ast.Subscript) and isinstance(t.value, ast.Name) and t.value.id in env and isinstance(t.slice, ast.Compare) and norm(t.slice.left) == t.value.id and len(t.slice.ops) == 1:
+                    bound = term(t.slice.comparators[0], env, ranks)
+                    newv = term(st.value, env, ranks)
+                    op = type(t.slice.ops[0])
+                    cmp = {ast.Lt: lambda x: x < bound, ast.LtE: lambda x: x <= bound, ast.Gt: lambda x: x > bound, ast.GtE: lambda x: x >= bound}.get(op)
+                    if cmp is None:
+                        raise _Unhandled(norm(st))
+                    # `new = coord[:]` is a numpy view: the store is seen through every alias
+                    env[t.value.id] = [newv if cmp(x) else x for x in env[t.value.id]]
+                    continue
+            if isinstance(st, ast.Expr) and isinstance(st.value, ast.Call) and isinstance(st.value.func, ast.Attribute) and st.value.func.attr == "append" and len(st.value.args) == 1:
+                out.append(tuple(value(st.value.args[0], env, ranks)))
+                continue
+            if isinstance(st, ast.Expr) and isinstance(st.value, ast.Constant):
+                continue
+            raise _Unhandled(f"statement {norm(st)[:60]}")
+        return None
+
+    bad, n = [], 0
+    for ranks in weak_orderings(["a", "b", "Z", "L"]):
+        if not (ranks["a"] <= ranks["b"] and ranks["Z"] < ranks["L"]):
+            continue
+        n += 1
+        env = {var: [ranks["a"], ranks["b"]]}
+        out = []
+        run_block(loop.body, env, ranks, out)
+        a, b, Z, L = ranks["a"], ranks["b"], ranks["Z"], ranks["L"]
+        outside = b <= Z or a >= L
+        want = None if outside else (max(a, Z), min(b, L))
+        inv = {}
+        for k2, v in ranks.items():
+            inv.setdefault(v, []).append({"a": "start", "b": "end", "Z": "0", "L": "len"}[k2])
+        text = " < ".join("=".join(inv[r]) for r in sorted(inv))
+        sym = lambda pr: "(" + ", ".join("=".join(inv[x]) for x in pr) + ")"  # noqa: E731
+        if outside:
+            if out:
+                bad.append((text, f"span kept as {sym(out[0])}", "dropped (it only touches or lies outside the sequence)"))
+        elif a == b:
+            pass  # an empty span inside the range: dropping or keeping it denotes the same residues
+        elif len(out) != 1 or tuple(out[0]) != want:
+            bad.append((text, f"span kept as {sym(out[0])}" if out else "span dropped", f"kept as {sym(want)}"))
+    return bad, n
+
+
+def r04_6(chk):
+    chk.rule("R04.6", "make_feature relates each span of a feature to the half-open range [0, len(self)) of the view: on EVERY weak ordering of (span start, span end, 0, len) a span that lies outside or only touches the range is dropped, any other span is clipped to (max(start, 0), min(end, len)) -- decided by evaluating the loop body symbolically on all orderings")
+    for rel in (OLD, NEW):
+        m = chk.repo.module(rel)
+        fn = m.func("Sequence.make_feature")
+        loops = [f for f in walk_no_nested(fn) if isinstance(f, ast.For) and isinstance(f.target, ast.Name) and any(isinstance(c, ast.Call) and isinstance(c.func, ast.Attribute) and c.func.attr == "append" for c in ast.walk(f))]
+        if not loops:
+            raise AnalysisError(f"{rel}::Sequence.make_feature: span loop not found")
+        lp = loops[0]
+        k = key(m, "Sequence.make_feature", "span vs [0, len) on all orderings")
+        try:
+            bad, n = _clip_semantics(lp, lp.target.id)
+        except _Unhandled as e:
+            chk.unresolved("R04.6", k, m.loc(lp), f"loop body uses a construct the evaluator does not model: {e}")
+            continue
+        if bad:
+            w = "; ".join(f"[{t}] {got}, expected {exp}" for t, got, exp in bad[:4])
+            chk.violation("R04.6", k, m.loc(lp), f"{len(bad)} of {n} orderings are classified wrongly: {w}" + (" ..." if len(bad) > 4 else "") + " -- a feature with such a span raises ValueError or gets a map of the wrong length on that view")
+        else:
+            chk.ok("R04.6", k, m.loc(lp), f"all {n} orderings of (start, end, 0, len) classified and clipped correctly")
+    chk.floor("R04.6", 2, "both Sequence implementations")
+
+
 def run(chk):
     r04_1(chk)
+    r04_6(chk)
     r04_2(chk)
     r04_4(chk)
     r04_5(chk)
